@@ -6,6 +6,15 @@
 Orgs1 == {0}
 Orgs2 == {0, 1}
 Orgs3 == {0, 1, 2}
+\* organisation ids and index names whose naive concatenations collide: "a" + "12" = "a1" + "2"; also one id a prefix of another
+OrgsColl == {2, 12}
+Orgs3Coll == {0, 2, 12}
+IndexNamesColl == {"a", "a1"}
+IndexNamesSim == {"a", "a1", "ab", "abc", "b"}
+ExprsColl == {"a", "a1", "a*", "*"}
+ExprsSim == {"a", "a1", "ab", "abc", "b", "al", "a*", "*", "a*b", "*b", "b,a*b"}
+DelExprsColl == {"a", "a1"}
+DelExprsSim == {"a", "a1", "ab", "abc", "b", "a*b", "*b"}
 IndexNames == {"a", "ab", "abc", "b"}
 IndexNamesPrefix == {"a", "ab", "abc"}
 IndexNamesTwo == {"ab", "abc"}
@@ -20,7 +29,7 @@ DelExprsPrefix == {"a", "ab", "abc", "a*b"}
 DelExprsTwo == {"ab", "abc", "a*b"}
 Terms(e) == IF e = "b,a*b" THEN {"b", "a*b"} ELSE {e}
 Wild(t) == t \in {"a*", "a*b", "*b"}
-Match(t, n) == \/ t = "a*" /\ n \in {"a", "ab", "abc", "al"}
+Match(t, n) == \/ t = "a*" /\ n \in {"a", "a1", "ab", "abc", "al"}
                \/ t = "a*b" /\ n = "ab"
                \/ t = "*b" /\ n \in {"ab", "b"}
 =============================================================================
